@@ -12,7 +12,8 @@ Definition mkpt (name : string) (dt : dtype) (wf : bool) (takes : list str) : pa
   {| p_name := s_ name; p_iscmd := false; p_optional := false; p_predef := false; p_dt := Some dt; p_unit := [];
      p_dtdefault := PInt 0; p_descr := Some (s_ "d"); p_readonly := false; p_needscfg := false;
      p_export := XName (95%N :: s_ name); p_visibility := 1; p_group := []; p_default := None; p_value := None;
-     p_has_write := true; p_wfunc := wf; p_polled := false; p_uninit := false; p_takes := takes |}.
+     p_has_write := true; p_wfunc := wf; p_polled := false; p_uninit := false; p_takes := takes;
+     p_constant := None |}.
 Definition mkp (name : string) (dt : dtype) (wf : bool) : param := mkpt name dt wf [].
 Definition C1 : cls :=
   {| c_params := [mkp "p1" fl010 true; mkp "p2" TBool false; mkp "p3" (TArray fl010 0 3) false]; c_props := [];
